@@ -58,7 +58,7 @@ ASSUMPTIONS = [
 ]
 
 DEPTH = {"quick": 3, "thorough": 4}
-HEAVY = ("tx", "cds")  # large accessor alphabets: one level shallower, and the first operation is split over sub-shards
+HEAVY = ("tx", "cds", "cds_direct")  # large accessor alphabets: one level shallower, and the first operation is split over sub-shards
 NSUB = 4
 
 
@@ -237,7 +237,13 @@ def build(spec, alias=False):
         text = F.splice(GENOME, lib.M.P(tuple(tuple(b) for b in spec["blocks"]), spec["strand"]) if False else _P(spec), spec["strand"])
         return Sequence(text, Alphabet.NT_EXTENDED_GAPPED, id="piece", type="sequence_chunk", parent=Parent(location=L))
     if k == "feat":
-        return lib.mk_feat([tuple(b) for b in spec["blocks"]], spec["strand"], par, sequence_name="chrV", feature_name="f", feature_id="fid", feature_types=["b", "a"], qualifiers={"q": ["2", "1"], "k": ["x"]})
+        # (own qualifiers carry the reserved export keys with OTHER values than the attributes of the same name)
+        return lib.mk_feat([tuple(b) for b in spec["blocks"]], spec["strand"], par, sequence_name="chrV", feature_name="f", feature_id="fid", feature_types=["b", "a"],
+                           qualifiers={"q": ["2", "1"], "k": ["x"], "feature_id": ["own-fid"], "feature_name": ["own-name"], "feature_type": ["own-type"]})
+    if k == "cds_direct":
+        # a CDS built directly (not through a transcript): own qualifiers with reserved keys, any frame vector (programmed frameshifts)
+        return lib.mk_cds([tuple(b) for b in spec["blocks"]], spec["strand"], spec["frames"], par, sequence_name="chrV", protein_id="p", product="prod",
+                          qualifiers={"k": ["c-own"], "protein_id": ["own-pid"], "product": ["own-product"]})
     if k == "tx":
         return _tx([tuple(b) for b in spec["exons"]], spec["strand"], spec.get("cds"), spec.get("f0", 0), par, qualifiers={"k": ["v"], "gene": ["shared"]})
     if k == "cds":
@@ -298,6 +304,12 @@ def catalogue(tier):
         out.append(dict(kind="cds", exons=[[0, 5], [7, 14]], strand=s, cds=[0, 12], f0=1, parent=(1, 13)))
         out.append(dict(kind="gene", exons=[[0, 5], [7, 14]], strand=s, cds=[1, 11]))
         out.append(dict(kind="fcoll", exons=[[0, 5], [7, 14]], strand=s))
+        # frameshift between the exons (the cached codons do not tile the spliced CDS), on the chromosome and on a chunk
+        out.append(dict(kind="cds_direct", blocks=[[0, 7], [10, 20]], strand=s, frames=[0, 0]))
+        out.append(dict(kind="cds_direct", blocks=[[0, 7], [10, 20]], strand=s, frames=[0, 0], parent=(0, 22)))
+        # built without a parent (and adopted later by a gene / feature collection that has one: ENV:adopt)
+        out.append(dict(kind="tx", exons=[[0, 5], [7, 14]], strand=s, cds=[1, 11], f0=0, parent="none"))
+        out.append(dict(kind="feat", blocks=[[1, 4], [6, 9]], strand=s, parent="none"))
     out.append(dict(kind="gene", exons=[[0, 5], [7, 14]], strand="+", cds=[1, 11], parent=(0, 20)))
     out.append(dict(kind="variant", s=3, e=5, alt="G"))
     out.append(dict(kind="variant", s=3, e=4, alt="GTT", parent=(1, 15)))
@@ -312,9 +324,9 @@ def catalogue(tier):
                 for a, b in ((1, 14), (3, 12), (0, 9)):
                     out.append(dict(kind="tx", exons=[[0, 6], [6, 9], [10, 14]], strand=s, cds=[0, 13], f0=f0, parent=(a, b)))
                     out.append(dict(kind="cds", exons=[[2, 14]], strand=s, cds=[0, 12], f0=f0, parent=(a, b)))
-            out.append(dict(kind="tx", exons=[[0, 5], [7, 14]], strand=s, cds=[1, 11], f0=0, parent="none"))
-            out.append(dict(kind="feat", blocks=[[1, 4], [6, 9]], strand=s, parent="none"))
             out.append(dict(kind="loc", blocks=[[1, 4], [6, 9]], strand=s, parent="none"))
+            for fv in ([0, 1], [1, 0], [2, 2]):
+                out.append(dict(kind="cds_direct", blocks=[[0, 7], [10, 20]], strand=s, frames=fv, parent=(3, 18)))
     return out
 
 
@@ -452,9 +464,24 @@ def o_has_chrom(obj):
 
 
 ENV = ("ENV:evict", "ENV:clear", "ENV:twin", "ENV:alias")
+ADOPT = "ENV:adopt"  # the object becomes the child of a gene / feature collection that brings a chromosome parent
 
 
-def env_action(name, spec):
+def adoptable(spec):
+    return spec["kind"] in ("tx", "feat") and spec.get("parent", "chrom") in ("none", "chrom")
+
+
+def adopt(obj):
+    par = lib.chrom_parent(GENOME)
+    if isinstance(obj, TranscriptInterval):
+        return GeneInterval([obj], gene_id="adopter", parent_or_seq_chunk_parent=par)
+    return FeatureIntervalCollection([obj], feature_collection_id="adopter", parent_or_seq_chunk_parent=par)
+
+
+def env_action(name, spec, obj=None):
+    if name == ADOPT:
+        answer(lambda: adopt(obj))
+        return
     if name == "ENV:evict":
         for i in range(parent_mod.PARENT_CACHE_SIZE + 1):
             Parent(id=f"evict{i}")
@@ -485,7 +512,7 @@ def rebuild(spec, history, all_ops):
     obj = build(spec)
     for opn in h:
         if opn.startswith("ENV:"):
-            env_action(opn, spec)
+            env_action(opn, spec, obj)
         else:
             answer(lambda: all_ops[opn](obj))
     return obj
@@ -505,6 +532,17 @@ def explore(res, spec, depth, sub=(0, 1)):
         t = build(spec)
         ref[n] = answer(lambda: all_ops[n](t))
     res.extra["operations_in_alphabet"] += len(names)
+    # adoption legitimately changes the object (it gains the adopter's parent): after it, the reference is a cold twin that
+    # was adopted the same way and asked nothing before
+    ref_ad = {}
+    envs = list(ENV)
+    if adoptable(spec):
+        envs.append(ADOPT)
+        for n in names:
+            bootstrap.clear_global_caches()
+            t = build(spec)
+            env_action(ADOPT, spec, t)
+            ref_ad[n] = answer(lambda: all_ops[n](t))
     seen = set()
     frontier = collections.deque([()])
     bootstrap.clear_global_caches()
@@ -513,18 +551,20 @@ def explore(res, spec, depth, sub=(0, 1)):
     truncated = 0
     while frontier:
         hist = frontier.popleft()
-        for oi, opn in enumerate(names + list(ENV)):
+        for oi, opn in enumerate(names + envs):
             if not hist and oi % sub[1] != sub[0]:
                 continue  # the first operation of a history is split over sub-shards
-            if opn in ("ENV:twin", "ENV:alias") and any(not x.startswith("ENV:t") and not x.startswith("ENV:a") for x in hist):
+            if opn in ("ENV:twin", "ENV:alias") and any(x not in ("ENV:twin", "ENV:alias") for x in hist):
                 continue  # twin/alias are only meaningful before the object exists
+            if opn == ADOPT and ADOPT in hist:
+                continue  # adopted at most once
             obj = rebuild(spec, hist, all_ops)
             if opn.startswith("ENV:"):
                 if opn in ("ENV:twin", "ENV:alias"):
                     newh = hist + (opn,)
                     obj = rebuild(spec, newh, all_ops)
                 else:
-                    env_action(opn, spec)
+                    env_action(opn, spec, obj)
                     newh = hist + (opn,)
                 res.trans()
             else:
@@ -533,13 +573,15 @@ def explore(res, spec, depth, sub=(0, 1)):
                 if len(hist) >= 1:
                     res.nontriv((spec_key(spec), hist, opn))
                 res.note("answer", "exc" if got[0] == "exc" else "value")
-                if got != ref[opn]:
+                want = ref_ad[opn] if ADOPT in hist else ref[opn]
+                if got != want:
                     res.deviation(
                         opn,
                         dict(spec=spec, history=list(hist), op=opn),
                         _short(got),
-                        _short(ref[opn]),
-                        sig=_sig(opn, got, ref[opn]),
+                        _short(want),
+                        sig=_sig(opn, got, want),
+                        stale_pre_adopt=bool(ADOPT in hist and got == ref[opn]),
                         first_op=hist[0] if hist else None,
                     )
                 newh = hist + (opn,)
@@ -729,12 +771,34 @@ def replay(case):
     opn = case["op"]
     bootstrap.clear_global_caches()
     t = build(spec)
+    if ADOPT in case["history"]:
+        env_action(ADOPT, spec, t)
     ref = answer(lambda: all_ops[opn](t))
     obj = rebuild(spec, tuple(case["history"]), all_ops)
     got = answer(lambda: all_ops[opn](obj))
     if got != ref:
-        res.deviation(opn, case, _short(got), _short(ref), sig=_sig(opn, got, ref), first_op=case["history"][0] if case["history"] else None)
+        bootstrap.clear_global_caches()
+        pre = answer(lambda: all_ops[opn](build(spec)))
+        res.deviation(opn, case, _short(got), _short(ref), sig=_sig(opn, got, ref), first_op=case["history"][0] if case["history"] else None,
+                      stale_pre_adopt=bool(ADOPT in case["history"] and got == pre))
     return res.deviations
 
 
-MATCHERS = {}
+STALE_AFTER_ADOPT = ("has_sequence", "chunk_relative_span", "chunk_relative_gaps_location", "chunk_relative_intron_location")
+
+
+def _m_adopt_stale(d):
+    # the defect's own input class (interval built WITHOUT a parent, one of the four result-cached questions asked
+    # before a collection adopted it) and its own shape (the answer given is exactly the pre-adoption answer)
+    c = d["case"]
+    h = c.get("history", [])
+    return (
+        c.get("op") in STALE_AFTER_ADOPT
+        and c.get("spec", {}).get("parent") == "none"
+        and ADOPT in h
+        and c["op"] in h[: h.index(ADOPT)]
+        and d.get("stale_pre_adopt") is True
+    )
+
+
+MATCHERS = {"c10_adopt_stale": _m_adopt_stale}
